@@ -8,9 +8,11 @@ must be bitwise equal to the Nthread = 1 run, with the same row order and Ncent 
 NUMBA_BOUNDSCHECK=1; the model is evaluated with the real block tables of each thread count and must give the same integer
 outcome.  fast_concatenate and _searchsorted_parallel are also driven directly; the real np.rint(np.linspace(0,H,n+1)) is
 checked to satisfy the block-table hypothesis of the theorems for H <= 4096, n <= 128."""
+import os
+
 from vlib import coq, coqio
 
-from . import c09
+from . import c09, hod_wrapper
 
 PID = 'C10'
 GEN = ['gen.c09', 'gen.c10']
@@ -183,6 +185,11 @@ def impl_concat(payload):
     return out
 
 
+def impl_run_hod(payload):
+    from harness import hod_wrapper
+    return hod_wrapper.impl_run_hod(payload)
+
+
 def impl_tables(payload):
     """np.rint(np.linspace(0, H, n+1)) as evaluated by numba (inside a fastmath njit function, as in the kernels) and by NumPy:
     first entry 0, last entry H, non-decreasing, n+1 entries."""
@@ -262,6 +269,8 @@ def explore(ctx):
         'concat_bc': ('impl_concat', dict(cases=ccases), {'NUMBA_BOUNDSCHECK': '1'}),
         'tables': ('impl_tables', table_payload, None),
         'search': ('impl_search', dict(seed=ctx.seed, sizes=[[0, 0], [0, 5], [5, 0], [1, 7], [10, 33], [100, 257]]), None),
+        # the public entry point: AbacusHOD(...).run_hod on synthetic subsample files (staging + wrapper around the kernels)
+        'run_hod': ('impl_run_hod', dict(cases=hod_wrapper.cases(ctx), root=os.path.join(ctx.scratch, 'c10_run_hod')), None),
     }
     results = {}
     import time
@@ -322,9 +331,24 @@ def explore(ctx):
                                         predicate=predicate))
 
     dist = {'H': {}, 'subsets': {}, 'thread_counts': THREADS, 'catalog_runs': 0, 'concat_cases': len(ccases),
-            'tables_checked': 0, 'outcomes': {}}
+            'tables_checked': 0, 'outcomes': {}, 'run_hod_sessions': 0, 'run_hod_catalogues': 0}
+    evaluations_hod = [0]
+    hw = results.get('run_hod')
+    if hw is None:
+        ctx.notes.append('run_hod stage did not complete')
+    else:
+        hcases = jobs['run_hod'][1]['cases']
+        for c, g in zip(hcases, hw):
+            dist['run_hod_sessions'] += 1
+            dist['run_hod_catalogues'] += len(c['threads'])
+            evaluations_hod[0] += len(c['threads'])
+            if g['problems']:
+                report('run_hod:' + g['problems'][0].split(':')[-1].strip()[:50].replace(' ', '_'),
+                       'AbacusHOD.run_hod: ' + g['problems'][0], c['H'] + c['P'], {'run_hod': c}, g,
+                       'the catalogue gen_gal_cat builds from the staged tables, identical for every thread count',
+                       'run_hod(..., Nthread=n) == gen_gal_cat(staged tables, Nthread=n) == run_hod(..., Nthread=1)')
     nontrivial = set()
-    evaluations = 0
+    evaluations = evaluations_hod[0]
     for mode in ('threads', 'threads_bc'):
         res = results.get(mode)
         if res is None:
@@ -450,7 +474,8 @@ def explore(ctx):
         'rule': 'gen_gal_cat on synthetic tables with H in {0,1,2,5,15,16,17,100} (particle counts not divisible by the thread counts), '
                 'tracer subsets, option mixes, each with Nthread = 1..16 (compiled) and a subset of thread counts under '
                 'NUMBA_BOUNDSCHECK=1; fast_concatenate on N1,N2 in {0,1,2,3,5,17,100,...} x Nthread 1..16; the block tables for all '
-                'H <= 4096, n <= 128; non-trivial = at least two galaxies, distinct by (H, P, subset)',
+                'H <= 4096, n <= 128; AbacusHOD.run_hod on synthetic subsample files (3 sessions x thread counts, with an unrequested '
+                'NFW_draw table, bitwise against gen_gal_cat on the staged tables and across thread counts); non-trivial = at least two galaxies, distinct by (H, P, subset)',
         'samples': [{'spec': specs[i], 'sizes': (comp[i].get('sizes') if comp else None)} for i in (0, len(specs) // 2, len(specs) - 1)],
         'traces_validated_against_impl': validated, 'exhaustive': False, 'input_distribution': dist,
         'mismatches': mismatches, 'counterexamples': counterexamples, 'timing_s': dict(timing, total=round(time.time() - t_start, 1)),
@@ -494,6 +519,9 @@ def search(ctx, broken):
 
 def replay(ctx, rec):
     inp = rec['input']
+    if 'run_hod' in inp:
+        g = ctx.run_impl('harness.c10', 'impl_run_hod', dict(cases=[inp['run_hod']], root=os.path.join(ctx.scratch, 'c10_run_hod_replay')))[0]
+        return bool(g['problems']), {'case': inp['run_hod'], 'impl_result': g}
     if 'concat' in inp:
         r = ctx.run_impl('harness.c10', 'impl_concat', dict(cases=[inp['concat']]))[0]
         try:
